@@ -5,11 +5,20 @@ same canonical snapshot string as `MM.snapshot`.  Used by C03, C05, C11 (and C04
 from __future__ import annotations
 
 import copy
+import hashlib
 import warnings
 
 import numpy as np
 
 import common
+
+def start_run(mc):
+    """a new run() starts here — through the REAL entry point (a run of zero steps), so that what the driver does before
+    the first step of every run (validate_simulation(), the step-0 block) is the code's own, not a call of the harness"""
+    with warnings.catch_warnings():
+        warnings.simplefilter("ignore")
+        mc.run(0)
+
 
 AUX = ["numbers", "tags", "uid", "initial_charges"]  # + the two columns of the 2-D array "c2"
 
@@ -154,7 +163,10 @@ def build_atoms(case):
 
     rows = case["rows"]
     n = len(rows)
-    a = Atoms(numbers=[r[6] for r in rows], positions=[r[0:3] for r in rows], cell=np.diag(case["cell"]).astype(float),
+    pos = np.array([r[0:3] for r in rows], dtype=float).reshape(n, 3)
+    if n and (sum(r[6] for r in rows) + n) % 3 == 0:
+        pos[pos == 0.0] = -0.0          # zeros of a mirrored or negated structure carry a sign bit
+    a = Atoms(numbers=[r[6] for r in rows], positions=pos, cell=np.diag(case["cell"]).astype(float),
               pbc=True)
     a.set_array("momenta", np.array([r[3:6] for r in rows], dtype=float).reshape(n, 3), float, (3,))
     a.set_tags([r[7] for r in rows])
@@ -346,9 +358,7 @@ class Sim:
         mc.yield_moves = lambda: iter([self.current])
         if pre_validate is not None:
             pre_validate(self)
-        with warnings.catch_warnings():
-            warnings.simplefilter("ignore")
-            mc.validate_simulation()
+        start_run(mc)
 
     # ------------------------------------------------------------------ running
 
@@ -447,6 +457,9 @@ class Sim:
         a = self.atoms
         return {
             "arrays": {k: (str(v.dtype), v.tolist()) for k, v in sorted(a.arrays.items())},
+            # bit for bit: equal VALUES are not enough (-0.0 == 0.0, and the sign of a zero shows in every file written)
+            "bits": {k: hashlib.sha1(np.ascontiguousarray(v).tobytes()).hexdigest()[:16] for k, v in sorted(a.arrays.items())}
+                    | {"cell": hashlib.sha1(np.ascontiguousarray(a.cell.array).tobytes()).hexdigest()[:16]},
             "cell": a.cell.array.tolist(),
             "pbc": a.pbc.tolist(),
             "fixed": self.fixed(),
